@@ -288,10 +288,17 @@ def obligations(tier):
     def bbmake(cls):
         def f(mk):
             eos = C16.make_eos('ideal_gas_eos', mk)
-            s = cls(eos)
             if Mode.symbolic(mk):
-                s.solver = C02._NewtonStub()
-            return s
+                # the Newton solver is a CLASS attribute shared by every instance: one shared contract stub per path, installed
+                # where the real one lives (not per instance), so that what one object leaves in it is seen by the next
+                from symx.engine import current
+                ex = current()
+                if 'shared_newton' not in ex.notes:
+                    ex.notes['shared_newton'] = C02._NewtonStub()
+                bb.NohBlackBoxEos.solver = ex.notes['shared_newton']
+            elif isinstance(bb.NohBlackBoxEos.solver, C02._NewtonStub):
+                bb.NohBlackBoxEos.solver = H.mod(C16.NEWM).newton_solver()      # replay: the real shared solver again
+            return cls(eos)
         return f
 
     def bbrun(s, mk):
@@ -300,7 +307,8 @@ def obligations(tier):
                 'symmetry_used': s.residual_funciton.symmetry}
     for a, b in (('PlanarNohBlackBox', 'CylindricalNohBlackBox'), ('SphericalNohBlackBox', 'PlanarNohBlackBox')):
         o = Other('nohbb.%s-then-%s' % (a[:3], b[:3]), [bb, H.mod(C16.EOSM), H.mod(C16.RESM)], bbmake(getattr(bb, a)), bbmake(getattr(bb, b)),
-                  bbrun, ('symmetry_used',), lambda V: [T.gt(V('gamma'), T.ONE), T.gt(V('o_gamma'), T.ONE)],
+                  bbrun, ('symmetry_used', 'shocked_density', 'shocked_energy', 'shock_speed'),
+                  lambda V: [T.gt(V('gamma'), T.ONE), T.gt(V('o_gamma'), T.ONE)],
                   functions=[bb.NohBlackBoxEos.__init__, bb.NohBlackBoxEos.solve_jump_conditions])
         obs.append(o)
     # Guderley module globals
